@@ -10,6 +10,7 @@ import (
 	"github.com/algorand/go-algorand/data/basics"
 	"github.com/algorand/go-algorand/data/transactions"
 	"github.com/algorand/go-algorand/data/txntest"
+	"github.com/algorand/go-algorand/ledger/eval"
 	"github.com/algorand/go-algorand/protocol"
 )
 
@@ -36,6 +37,10 @@ func (g *Gen) balAt(addr basics.Address, level uint64) uint64 {
 	}
 	return ad.WithUpdatedRewards(g.proto.RewardUnit, level).MicroAlgos.Raw
 }
+
+// evalRewardsLevel is the rewards level of the block under construction (the header handed to
+// ExtraGroups does not carry it yet: the evaluator derives the rewards state itself).
+func evalRewardsLevel(ev *eval.BlockEvaluator) uint64 { return ev.VerifView().Mods.Hdr.RewardsLevel }
 
 // mainAccts are the genesis-funded accounts; spareAccts only exist as key pairs until somebody pays them.
 func mainAccts() []*Acct  { return Accounts()[:nAccounts] }
